@@ -23,6 +23,7 @@
 -/
 import SamlVerif.Generated.TransSamlsp
 import SamlVerif.Proofs.TransSP
+import SamlVerif.Props.TransParse
 open SamlVerif SamlVerif.GoSem
 namespace SamlVerif.TransMiddleware
 open TransM
@@ -433,6 +434,62 @@ theorem getTrackedRequest_sound (env : Env) (t : CookieRequestTracker) (r : Opti
                   exact ⟨rq, c, q, rfl, hc, hd, hi, h.symm⟩
                 · simp [hi] at h
 
-theorem TransM_no_failures' : TransM.transFailures = [] := by decide
+/-- a tracked request of this browser: the decoding of one of its cookies whose name is the tracker's prefix followed by the
+    index the decoded request carries -/
+def FromCookie (env : Env) (t : CookieRequestTracker) (rq : HTTPRequest) (req : TrackedRequest) : Prop :=
+  ∃ ck, some ck ∈ env.cookies rq ∧ hasPrefix ck.Name t.NamePrefix = true ∧
+    t.Codec.Decode ck.Value = .ok (some req, none) ∧ trimPrefix ck.Name t.NamePrefix = req.Index
+
+/-- C04 / C17: every request `GetTrackedRequests` reports (hence every request ID `ServeACS` treats as outstanding) comes from a
+    cookie this browser presented, decoded by the tracker's codec, under that request's own index -/
+theorem getTrackedRequests_sound (env : Env) (t : CookieRequestTracker) (r : Option HTTPRequest) (l : List TrackedRequest)
+    (h : GetTrackedRequests env t r = .ok l) : ∃ rq, r = some rq ∧ ∀ req ∈ l, FromCookie env t rq req := by
+  cases r with
+  | none => simp [GetTrackedRequests] at h
+  | some rq =>
+    refine ⟨rq, rfl, ?_⟩
+    unfold GetTrackedRequests at h
+    simp only [deref_some, Outcome.ok_bind', Outcome.pure_eq_ok] at h
+    generalize hB : (fun (cookie : Option Cookie) (rv : List TrackedRequest) => _) = B at h
+    cases hf : forIn (env.cookies rq) ([] : List TrackedRequest) B with
+    | err e => simp [hf] at h
+    | panic p => simp [hf] at h
+    | ok res =>
+      simp only [hf, Outcome.ok_bind', Outcome.ok.injEq] at h
+      subst h
+      refine TransSP.forIn_inv (env.cookies rq) B (fun rv => ∀ req ∈ rv, FromCookie env t rq req) ?_ [] (by simp) res hf
+      intro ck hck rv hI st hst
+      subst hB
+      cases ck with
+      | none => simp at hst
+      | some c =>
+        simp only [deref_some, Outcome.ok_bind'] at hst
+        by_cases hp : hasPrefix c.Name t.NamePrefix = true
+        · simp only [hp, Bool.not_true, Bool.false_eq_true, if_false] at hst
+          cases hd : t.Codec.Decode c.Value with
+          | err e => simp [hd] at hst
+          | panic p => simp [hd] at hst
+          | ok dres =>
+            obtain ⟨q, de⟩ := dres
+            simp only [hd, Outcome.ok_bind'] at hst
+            cases de with
+            | some e => simp at hst; subst hst; exact hI
+            | none =>
+              simp only [Option.isSome_none, Bool.false_eq_true, if_false] at hst
+              cases q with
+              | none => simp at hst
+              | some qq =>
+                simp only [deref_some, Outcome.ok_bind'] at hst
+                by_cases hi : trimPrefix c.Name t.NamePrefix = qq.Index
+                · simp [hi] at hst
+                  subst hst
+                  intro req hreq
+                  simp only [List.mem_append, List.mem_singleton] at hreq
+                  rcases hreq with hreq | hreq
+                  · exact hI req hreq
+                  · subst hreq; exact ⟨c, hck, hp, hd, hi⟩
+                · simp [hi] at hst; subst hst; exact hI
+        · have : hasPrefix c.Name t.NamePrefix = false := by simpa using hp
+          simp [this] at hst; subst hst; exact hI
 
 end SamlVerif.TransMiddleware
